@@ -24,6 +24,7 @@ func runC18(c *Ctx) {
 	c18Target(c)
 	c18Reroute(c)
 	c18Verify(c)
+	c18Knowledge(c)
 }
 
 func c18Target(c *Ctx) {
